@@ -106,3 +106,75 @@ pub fn lifted(run: &Run, docs: &[Value], max_names: usize, mode: Mode) -> Acc {
         })
         .reduce(Acc::new, Acc::merge)
 }
+
+/// One parsed query (never re-parsed, never cloned) evaluated on every document of the panel in turn, each result
+/// against the model: what the query learnt on one document must not leak into the next. The queries contain the
+/// constructs whose outcome does not depend on the node under test (`$`-rooted tests, comparisons between two
+/// `$`-rooted operands, functions of `$`-rooted queries, literals).
+pub const PREPARED: [&str; 24] = [
+    "$[?$.a]",
+    "$[?!$.a]",
+    "$[?$[0]]",
+    "$[?!$[1]&&@]",
+    "$[?$.a&&@.a]",
+    "$[?$.*[?@.a]]",
+    "$..[?$.a&&@==1]",
+    "$[?$..a]",
+    "$[?count($.*)>1]",
+    "$[?count($..a)==1]",
+    "$[?length($)>2]",
+    "$[?value($.a)==1]",
+    "$[?$.a==$.b]",
+    "$[?$[0]==$[1]]",
+    "$[?$.a!=1]",
+    "$[?match($.p,'a.*')]",
+    "$[?search($.p,$.p)]",
+    "$[?@==$[0]]",
+    "$[?@.a==$.a]",
+    "$.*[?$[0]]",
+    "$[?$[?@.a]]",
+    "$[?!$[?@.a==1]||@.b]",
+    "$[?(1==1)]",
+    "$[?$]",
+];
+
+pub fn prepared(run: &Run, docs: &[Value], mode: Mode) -> Acc {
+    use super::common::check_obs;
+    PREPARED
+        .par_iter()
+        .map(|q| {
+            let mut acc = Acc::new();
+            let ast = rfc_parse(q).unwrap_or_else(|e| panic!("prepared query {} must be valid: {:?}", q, e)).0;
+            let kept = match crate::imp::parse(q) {
+                Ok(Ok(j)) => j,
+                _ => return acc,
+            };
+            // forwards and backwards: every document is met after every kind of predecessor
+            let mut prev: Option<&Value> = None;
+            for d in docs.iter().chain(docs.iter().rev()) {
+                let dc = DocCtx::new(d);
+                let out = crate::imp::run_parsed(&kept, d, &dc.am);
+                acc.transitions += 1;
+                let mut tmp = Acc::new();
+                match check_obs(run, &mut tmp, q, &ast, &dc, &out, mode, "prepared query over the panel") {
+                    Outcome::Violation => {
+                        acc.viol(
+                            format!("{} parsed once and evaluated on one document after another: {}", q, tmp.first_violation().unwrap_or_default()),
+                            json!({"kind": "kept-query", "class": "prepared query over the panel", "query": q, "docs": [prev.cloned().unwrap_or(Value::Null), d.clone()]}),
+                        );
+                        return acc;
+                    }
+                    Outcome::Agree(n) => {
+                        acc.evals += 1;
+                        if n > 0 {
+                            acc.nontrivial += 1;
+                        }
+                    }
+                    _ => acc = acc.merge(tmp),
+                }
+                prev = Some(d);
+            }
+            acc
+        })
+        .reduce(Acc::new, Acc::merge)
+}
